@@ -98,6 +98,116 @@ theorem roundStart_le_now {c : Cfg} (hc : CfgOk c) {s : TS} (hs : Reach c s) : s
     | none => obtain ⟨h1, h2⟩ := hnone hp; omega
     | some r => obtain ⟨_, _, h1, h2⟩ := hpub r hp; omega
 
+/-- the potential `(n − round)·(M+2) − min(now − round_start, M+1)` falls by at least one in every
+    successful iteration in which time passes -/
+theorem potential_step {c : Cfg} (hc : CfgOk c) {n : Nat} {s s' : TS} (hs : Reach c s) {e : IterEnv}
+    {o : IterOut} (hit : iter c s e = .ok (s', o)) (hdt : 1 ≤ e.dt) (hlt : s.round < n) {L : Nat}
+    (hb : (n - s.round) * (c.maxRound + 2) ≤ L + 1 + min (s.now - s.roundStart) (c.maxRound + 1)) :
+    (n - s'.round) * (c.maxRound + 2) ≤ L + min (s'.now - s'.roundStart) (c.maxRound + 1) := by
+  have hrs := C09.round_step hc hs hit
+  obtain ⟨s2, _, _, _, hpub, hnone⟩ := C08.publish_iff hc hs hit
+  have hle := roundStart_le_now hc hs
+  cases hp' : o.published with
+  | some r =>
+    obtain ⟨_, _, h1, h2⟩ := hpub r hp'
+    have hr' : s'.round = s.round + 1 := by simpa [hp'] using hrs
+    have hsplit : (n - s.round) * (c.maxRound + 2) = (n - s'.round) * (c.maxRound + 2) + (c.maxRound + 2) := by
+      have : n - s.round = (n - s'.round) + 1 := by omega
+      rw [this, Nat.add_mul]; simp
+    have : min (s.now - s.roundStart) (c.maxRound + 1) ≤ c.maxRound + 1 := Nat.min_le_right _ _
+    omega
+  | none =>
+    obtain ⟨h1, h2⟩ := hnone hp'
+    have hr' : s'.round = s.round := by simpa [hp'] using hrs
+    have hnot : ¬ ((s.now + e.dt) - s.roundStart > c.maxRound) := fun hex =>
+      C08.never_held_open hc hs hit hex hp'
+    rw [hr', h1, h2]
+    have : min (s.now - s.roundStart) (c.maxRound + 1) ≤ s.now - s.roundStart := Nat.min_le_left _ _
+    have h3 : min (s.now + e.dt - s.roundStart) (c.maxRound + 1) = s.now + e.dt - s.roundStart := by
+      apply Nat.min_eq_left; omega
+    rw [h3]; omega
+
+/-- potential zero means the round limit is reached -/
+theorem potential_zero {c : Cfg} {n : Nat} (hn : 1 ≤ n) (hm : c.maxRounds = some n) {s : TS}
+    (hb : (n - s.round) * (c.maxRound + 2) ≤ 0 + min (s.now - s.roundStart) (c.maxRound + 1)) :
+    finished s c.maxRounds = true := by
+  have hz : n - s.round = 0 := by
+    rcases Nat.eq_zero_or_pos (n - s.round) with h | h
+    · exact h
+    · exfalso
+      have : 1 * (c.maxRound + 2) ≤ (n - s.round) * (c.maxRound + 2) := Nat.mul_le_mul_right _ h
+      have : min (s.now - s.roundStart) (c.maxRound + 1) ≤ c.maxRound + 1 := Nat.min_le_right _ _
+      omega
+  simp [finished, hm]; omega
+
+/-- **C09, liveness for every protocol and every environment in which time passes**: `run` has
+    *returned* — with `Ok(())`, or earlier with the error of a fatal iteration — within the bound;
+    it cannot be kept in the loop by anything the network sends, withholds or refuses. -/
+theorem returns_from {c : Cfg} (hc : CfgOk c) (n : Nat) (hn : 1 ≤ n) (hm : c.maxRounds = some n) :
+    ∀ (envs : List IterEnv) (s : TS), Reach c s → (∀ e ∈ envs, 1 ≤ e.dt) →
+      (n - s.round) * (c.maxRound + 2) ≤ envs.length + min (s.now - s.roundStart) (c.maxRound + 1) →
+      (run c s envs).ended ≠ none := by
+  intro envs
+  induction envs with
+  | nil =>
+    intro s _ _ hb
+    have hz : n - s.round = 0 := by
+      rcases Nat.eq_zero_or_pos (n - s.round) with h | h
+      · exact h
+      · exfalso
+        have : 1 * (c.maxRound + 2) ≤ (n - s.round) * (c.maxRound + 2) := Nat.mul_le_mul_right _ h
+        simp at hb; omega
+    have hf : finished s c.maxRounds = true := by simp [finished, hm]; omega
+    simp [run, hf]
+  | cons e es ih =>
+    intro s hs hbn hb
+    by_cases hf : finished s c.maxRounds = true
+    · simp [run, hf]
+    · have hlt : s.round < n := by simp [finished, hm] at hf; omega
+      cases hit : iter c s e with
+      | panic => simp [run, hf, hit]
+      | err er => simp [run, hf, hit]
+      | ok v =>
+      obtain ⟨s', o⟩ := v
+      have hs' : Reach c s' := .step e o hs hit
+      have hrs := C09.round_step hc hs hit
+      obtain ⟨s2, _, _, _, hpub, hnone⟩ := C08.publish_iff hc hs hit
+      have hle := roundStart_le_now hc hs
+      have hdt := hbn e (by simp)
+      have hrec : (run c s' es).ended ≠ none := by
+        apply ih s' hs' (fun e' he' => hbn e' (by simp [he']))
+        cases hp' : o.published with
+        | some r =>
+          obtain ⟨_, _, h1, h2⟩ := hpub r hp'
+          have hr' : s'.round = s.round + 1 := by simpa [hp'] using hrs
+          have hsplit : (n - s.round) * (c.maxRound + 2) = (n - s'.round) * (c.maxRound + 2) + (c.maxRound + 2) := by
+            have : n - s.round = (n - s'.round) + 1 := by omega
+            rw [this, Nat.add_mul]; simp
+          simp only [List.length_cons] at hb
+          have : min (s.now - s.roundStart) (c.maxRound + 1) ≤ c.maxRound + 1 := Nat.min_le_right _ _
+          omega
+        | none =>
+          obtain ⟨h1, h2⟩ := hnone hp'
+          have hr' : s'.round = s.round := by simpa [hp'] using hrs
+          have hnot : ¬ ((s.now + e.dt) - s.roundStart > c.maxRound) := fun hex =>
+            C08.never_held_open hc hs hit hex hp'
+          rw [hr', h1, h2]
+          simp only [List.length_cons] at hb
+          have : min (s.now - s.roundStart) (c.maxRound + 1) ≤ s.now - s.roundStart := Nat.min_le_left _ _
+          have h3 : min (s.now + e.dt - s.roundStart) (c.maxRound + 1) = s.now + e.dt - s.roundStart := by
+            apply Nat.min_eq_left; omega
+          rw [h3]; omega
+      simp only [run, hf, hit]
+      simpa using hrec
+
+/-- from the start: any protocol, any environment list of `n·(max_round+2)` iterations in which the
+    clock advances: the run has returned (and not by a panic: `C09.run_never_panics`). -/
+theorem returns {c : Cfg} (hc : CfgOk c) (n : Nat) (hn : 1 ≤ n) (hm : c.maxRounds = some n) (t0 : Nat)
+    (envs : List IterEnv) (hdt : ∀ e ∈ envs, 1 ≤ e.dt) (hlen : n * (c.maxRound + 2) ≤ envs.length) :
+    (run c (init c t0) envs).ended ≠ none := by
+  apply returns_from hc n hn hm envs _ (.init t0) hdt
+  simp [init]; omega
+
 /-- **C09, liveness.**  With a round limit `n`, from any reachable state with `s.round ≤ n`, every
     benign environment list of at least `(n − s.round)·(max_round + 2)` iterations (less the progress
     already made in the current round) brings `run` to `Ok(())`. -/
@@ -180,6 +290,9 @@ example : Benign { sends := [], dt := 1, recv := .none } := by simp [Benign]
 #print axioms sendRequest_benign
 #print axioms iter_benign_ok
 #print axioms roundStart_le_now
+#print axioms potential_step
+#print axioms returns_from
+#print axioms returns
 #print axioms terminates_from
 #print axioms terminates
 #print axioms terminates_with_n_rounds
